@@ -6,7 +6,9 @@ PROPS = ('C03',)
 
 
 def run(ctx):
-    ctx.rule = ('M: ContainersMC.tla (every entry point = Python list semantics; all lengths/bounds within constants). '
+    ctx.rule = ('G: ContainersGen.tla emits every abstract request (len <= 4, bounds -6..6/end, k <= 2, one/del forms, arglike '
+                'category sequences) with its expected result; all rows are compared with Python list semantics and a '
+                'sample (thorough: all) is replayed on 39 container templates. M: ContainersMC.tla (every entry point = Python list semantics; all lengths/bounds within constants). '
                 'V: random edit histories (every list-valued/optional/single field reachable in the corpus x index '
                 'class x code form x entry point x option set) on 40 corpus programs x 8 layout variants, each event '
                 'validated by TLC against EditLaws (SliceLaw, NothingElse, OracleAgree, CarriedOutNotRefused). '
@@ -15,7 +17,11 @@ def run(ctx):
                         'f-string internals excluded; raw mode excluded (C10)']
     ctx.model('ContainersMC', 'ContainersMC' if ctx.quick else 'ContainersMC_thorough',
               required=('DoPutSlice', 'DoPutOne', 'DoDelOne', 'DoAppend', 'DoPrepend'))
-    n_hist, n_steps = (1600, 8) if ctx.quick else (24000, 12)
+    # (G) TLC-generated request table x container catalogue, replayed into pfst
+    editcheck.run_sweep(ctx, per_template=45 if ctx.quick else 0, n_arg=400 if ctx.quick else 0, props=PROPS)
+    if not ctx.quick:
+        ctx.exhaustive = True  # the table (all lengths <= 4, bounds -6..6 + end, k <= 2) is replayed completely per template
+    n_hist, n_steps = (1200, 8) if ctx.quick else (24000, 12)
     specs = editcheck.history_specs(ctx, n_hist, n_steps)
     res = editcheck.generate(ctx, specs)
     val = editcheck.validate_all(ctx, res)
